@@ -129,10 +129,93 @@ Definition run_session (a : sx) : sx :=
   | _ => sx_err "session"
   end.
 
+(* ---------- several senders on one connection ---------- *)
+
+Definition sched_of (a : sx) : option (list (nat * action)) :=
+  match a with
+  | SL l =>
+      fold_right (fun x acc => match x, acc with
+                               | SL [SN i; SA act], Some r =>
+                                   let a := if String.eqb act "L" then ALock
+                                            else if String.eqb act "E" then AEncrypt
+                                            else if String.eqb act "W" then AWrite else AUnlock in
+                                   Some ((N.to_nat i, a) :: r)
+                               | _, _ => None end) (Some []) l
+  | _ => None
+  end.
+
+Definition queues_of (a : sx) : option (list (list (list N * list N))) :=
+  match a with
+  | SL l =>
+      fold_right (fun x acc => match msgs_of x, acc with
+                               | Some q, Some r => Some (q :: r)
+                               | _, _ => None end) (Some []) l
+  | _ => None
+  end.
+
+(* c11.csend (keystream (sender-queue ...) schedule) -> (wire ((is_encrypt size) ...))
+   Connection.Send by several goroutines over one transport: bytes on the wire
+   and the order of XORKeyStream / Write calls *)
+Definition run_csend (a : sx) : sx :=
+  match a with
+  | SL [SBytes k; qs; sc] =>
+      match queues_of qs, sched_of sc with
+      | Some qs, Some sc =>
+          let '(st, ev) := crun sha256 ks ks_next false sc (cinit ks k qs) [] in
+          SL [SBytes (cs_wire st); SL (map (fun e => SL [SB (fst e); SN (snd e)]) ev)]
+      | _, _ => sx_err "csend args"
+      end
+  | _ => sx_err "csend"
+  end.
+
+(* c11.conc: a session in which the client's packets are sent by several
+   goroutines; every payload starts with (sender id, sequence number).
+   -> (connected complete frames ((payload ...) per sender)) as decoded by the server *)
+Definition group_by_sender (n : nat) (frames : list (list N * list N)) : list sx :=
+  map (fun i => SL (map SBytes (filter (fun p => match p with b :: _ => N.eqb b (N.of_nat i) | [] => false end)
+                                       (map snd frames))))
+      (seq 0 n).
+
+Definition run_conc (a : sx) : sx :=
+  match a with
+  | SL [SBytes spriv; SBytes spub; SBytes params; SBytes _cseed; SBytes cpub; SBytes shc; SBytes shs;
+        tab; SL [SBytes rn; SBytes rp]; qs; sc] =>
+      match tab_of tab, queues_of qs, sched_of sc with
+      | Some tab, Some qs, Some sc =>
+          let init := ks_init tab in
+          let hs := handshake_bytes sha256 ks ks_next init spub params cpub shc in
+          match server_accept sha256 ks ks_next init (fun _ _ => shs) spriv spub hs with
+          | Some sv =>
+              let '(reply, _) := server_send sha256 ks ks_next sv rn rp in
+              let run := client_session sha256 ks ks_next init spub params cpub shc [] [reply] in
+              let '(st, _) := crun sha256 ks ks_next false sc (cinit ks (client_tx0 ks init params) qs) [] in
+              let '(frames, e, _) := server_recv sha256 ks ks_next sv (cs_wire st) in
+              SL [SB (cr_connected run);
+                  SB (match e with SDone => true | _ => false end);
+                  sx_nat (List.length frames);
+                  SL (group_by_sender (List.length qs) frames)]
+          | None => SL [SBytes hs; SA "server-rejects"]
+          end
+      | _, _, _ => sx_err "conc args"
+      end
+  | _ => sx_err "conc"
+  end.
+
+(* c11.stress (seed senders per_sender size): implementation-only load run;
+   by C11_lock_serialises + C11_server_receives the outcome is always this *)
+Definition run_stress (a : sx) : sx :=
+  match a with
+  | SL [SN _; SN n; SN k; SN _] => SL [SB true; SB true; SN (n * k); SB true]
+  | _ => sx_err "stress"
+  end.
+
 Definition run (name : string) (a : sx) : sx :=
   let is x := String.eqb name x in
   if is "c11.marshal" then run_marshal a
   else if is "c11.parse" then run_parse a
   else if is "c11.recv" then run_recv a
   else if is "c11.session" then run_session a
+  else if is "c11.csend" then run_csend a
+  else if is "c11.conc" then run_conc a
+  else if is "c11.stress" then run_stress a
   else sx_err "unknown case kind".
